@@ -111,7 +111,7 @@ fold_order!(fold_order_predicates_d, predicates, same_u8, [T_U_ARR_MUT, T_U_INT_
 /// a union of tuples with three different lengths: the minimum does not depend on the order
 fn min_len_three(p: u8) {
     set_order(p);
-    let t = Type::Tuple(vec![Type::Int, Type::Int, Type::Int].into()) | real(T_TUP1_INT) | real(T_TUP_INT_INT);
+    let t = Type::Tuple(crate::vv![Type::Int, Type::Int, Type::Int].into()) | real(T_TUP1_INT) | real(T_TUP_INT_INT);
     assert!(t.min_tuple_len() == Some(1));
     assert!(t.tuple_len().is_none());
 }
